@@ -298,8 +298,29 @@ def ev(e, env, whole=True):
             raise Undefined("array-exponent")
         if env.numconv is not None:
             # exact mode: only integral exponents of moderate size stay exact
-            if isinstance(a, np.ndarray) or b != int(b) or abs(b) > 64:
+            if isinstance(a, np.ndarray) or abs(b) > 64:
                 raise Undefined("inexact-power")
+            if b != int(b):
+                if not getattr(env, "decimal_powers", False) or isinstance(a, complex) or isinstance(b, complex):
+                    raise Undefined("inexact-power")
+                # a rational that agrees with the true power to 60 digits (all other arithmetic stays exact, so
+                # two ways of writing the same expression differ by ~1e-60 even after heavy cancellation)
+                import decimal
+                from fractions import Fraction
+                if a < 0:
+                    raise Undefined("fractional-power-of-negative")
+                if a == 0:
+                    if b < 0:
+                        raise Undefined("division-by-zero")
+                    return Fraction(0)
+                ctx = decimal.Context(prec=60)
+                fa, fb = Fraction(a), Fraction(b)
+                da = ctx.divide(decimal.Decimal(fa.numerator), decimal.Decimal(fa.denominator))
+                db = ctx.divide(decimal.Decimal(fb.numerator), decimal.Decimal(fb.denominator))
+                try:
+                    return Fraction(ctx.power(da, db))
+                except decimal.DecimalException:
+                    raise Undefined("overflow")
             b = int(b)
             if isinstance(a, int):
                 from fractions import Fraction
@@ -622,6 +643,12 @@ def _hkey(v):
         return ("b", bool(v))
     if isinstance(v, (int, np.integer)):
         return ("n", float(v))
+    import fractions
+    if isinstance(v, fractions.Fraction):
+        try:
+            return ("n", float("%.12g" % (float(v) + 0.0)))
+        except OverflowError:
+            return ("o", repr(v))
     if isinstance(v, (float, np.floating)):
         # -0.0 and 0.0 are one value, and values that differ in the last bits are one value: the passes
         # re-associate products/sums (Assign flattens its right-hand side), which moves the last ulp
